@@ -738,13 +738,19 @@ fn gen_path(r: &mut Rng) -> Vec<u8> {
 pub fn run_c18(ctx: &mut Ctx) {
     let miri = ctx.miri;
     let mut id = 0u64;
-    let dmax = if miri { 2 } else if ctx.light { 4 } else if ctx.thorough() { 7 } else { 6 };
+    // exhaustive up to length 6; the release layer of the thorough tier adds an eighth of the 36 M strings of length 7
+    // (which eighth depends on the seed), the debug-assertion and sanitizer layers stay at the quick bounds
+    let sampled7 = ctx.thorough() && !miri && !ctx.light && !cfg!(debug_assertions);
+    let dmax = if miri { 2 } else if ctx.light { 4 } else if sampled7 { 7 } else { 6 };
     for len in 1..=dmax {
         let total = (DENSE_ALPHABET.len() as u64).pow(len as u32);
         let chunks = 256.min(total);
         for c in 0..chunks {
             let cid = DIRECTED | id;
             id += 1;
+            if len == 7 && c % 8 != ctx.seed % 8 {
+                continue;
+            }
             if !ctx.want(cid) {
                 continue;
             }
@@ -752,7 +758,7 @@ pub fn run_c18(ctx: &mut Ctx) {
                 let b = nth_string(DENSE_ALPHABET, len, v);
                 check18(ctx, &b);
             }
-            ctx.add("exhaustive_dense_alphabet", total * (c + 1) / chunks - total * c / chunks);
+            ctx.add(if len == 7 { "sampled_dense_alphabet_length_7" } else { "exhaustive_dense_alphabet" }, total * (c + 1) / chunks - total * c / chunks);
         }
     }
     let n = ctx.n(300_000, 40_000_000);
